@@ -97,7 +97,11 @@ func runC16(c *c16Case) ([]c16Step, string) {
 	if c.Trace {
 		cfg.TraceWriter = NewCountingTrace()
 	}
-	if c.Via == "listener" {
+	if strings.HasPrefix(c.Via, "listener") {
+		if c.Via == "listener-tls" {
+			// a listener that can also do TLS (the upgrade is not negotiated here): its read limit is the configured one all the same
+			cfg.TLSConfig, _ = TLSConfigs()
+		}
 		l := lime.NewTCPTransportListener(cfg)
 		addr := &net.TCPAddr{IP: net.IPv4(127, 0, 0, 1), Port: 0}
 		// port 0: find the port through a probe listener is racy; bind a fixed free port instead
@@ -152,13 +156,13 @@ func runC16(c *c16Case) ([]c16Step, string) {
 			_ = tc.CloseWrite()
 		}
 	}()
-	if c.Coalesce || c.Via == "listener" {
+	if c.Coalesce || strings.HasPrefix(c.Via, "listener") {
 		select {
 		case <-wrote:
 		case <-time.After(20 * time.Second):
 			return nil, "harness: writer stuck"
 		}
-		if c.Via == "listener" {
+		if strings.HasPrefix(c.Via, "listener") {
 			time.Sleep(50 * time.Millisecond) // let the kernel deliver
 		}
 	}
@@ -252,7 +256,7 @@ func judgeC16(c *c16Case, steps []c16Step, note string, o *Outcome) {
 			o.Fail("C16/panic", "%s", st.Err)
 			return
 		}
-		if c.Via != "listener" && st.Consumed > L {
+		if !strings.HasPrefix(c.Via, "listener") && st.Consumed > L {
 			o.Fail("C16/receive-consumed-more-than-limit/"+cl, "Receive #%d consumed %d bytes from the connection, limit %d (frame %d bytes)", i, st.Consumed, L, st.Size)
 		}
 		if st.Refused {
@@ -335,10 +339,11 @@ func TestC16Sweep(t *testing.T) {
 	for _, a := range boundarySizes(4096) {
 		run(&c16Case{Limit: 4096, Sizes: []int{60, a}, Via: "listener", Trace: true})
 	}
-	// limit propagation through the real listener (loopback)
+	// limit propagation through the real listener (loopback), also one with a TLS configuration
 	for _, L := range []int64{256, 4096} {
 		for _, a := range boundarySizes(L) {
 			run(&c16Case{Limit: L, Sizes: []int{60, a}, Via: "listener"})
+			run(&c16Case{Limit: L, Sizes: []int{60, a}, Via: "listener-tls"})
 		}
 	}
 	if Thorough() {
